@@ -112,8 +112,21 @@ def F11():
     return "rect" in tags  # traversal sees the stale tree
 
 
+def F9b():
+    from picosvg.svg_types import SVGPath
+    from picosvg.svg_reuse import affine_between
+    a = SVGPath(d="M0,0 l3,0 a2,1 0 0 1 1,2 l-4,1 z")
+    b = SVGPath(d="M0,0 l0,3 a2,1 0 0 1 -2,1 l-1,-4 z")  # coordinates rotated by 90 degrees, ellipse axes NOT rotated
+    t = affine_between(a, b, 0.01)
+    if t is None:
+        return False
+    img = a.apply_transform(t).d
+    ref = b.arcs_to_cubics().absolute().d
+    return img[:60] != ref[:60]
+
+
 if __name__ == "__main__":
-    names = sys.argv[1:] or [f"F{i}" for i in range(1, 12)]
+    names = sys.argv[1:] or [f"F{i}" for i in range(1, 12)] + ["F9b"]
     for n in names:
         try:
             r = globals()[n]()
